@@ -403,7 +403,26 @@ func ruleWhoMayUnbind(c *Ctx, rule string) {
 			for root.Parent() != nil {
 				root = root.Parent()
 			}
-			c.ob(rule, fn, shortCallee(call)+" called only from the unassign-first paths", call, allowedCallers[bareName(root)], "callers are unbind / Release / the resync closure (each unassigns from the provider before deciding to free or reserve)")
+			// an unexported helper all of whose call sites lie in those paths is part of them
+			var okRoot func(f *ssa.Function, d int) bool
+			okRoot = func(f *ssa.Function, d int) bool {
+				for f.Parent() != nil {
+					f = f.Parent()
+				}
+				if allowedCallers[bareName(f)] {
+					return true
+				}
+				if d == 0 || len(staticSites[f]) == 0 || f.Object() == nil || f.Object().Exported() {
+					return false
+				}
+				for _, cs := range staticSites[f] {
+					if !okRoot(cs.Parent(), d-1) {
+						return false
+					}
+				}
+				return true
+			}
+			c.ob(rule, fn, shortCallee(call)+" called only from the unassign-first paths", call, okRoot(root, 2), "callers are unbind / Release / the resync closure (each unassigns from the provider before deciding to free or reserve), or an unexported helper called only from them")
 		}
 	}
 	if n < 5 {
